@@ -64,6 +64,75 @@ theorem C16_rename_builtin (val val' : Nat → Int) (nbrs nbrs' : Nat → List N
       (run (envOf val' nbrs' (cs.map (P10.critRename σ))) (order.map σ)) :=
   P10.run_sim_builtin_rename val val' nbrs nbrs' σ order hval hadj cs hseed
 
+/-- **C16 (axis permutations).** For any permutation `τ` of the axes (with inverse `τ'`), the
+run on the transposed array is similar to the original run; periodic axes are carried along. -/
+theorem C16_axis_permutation (shape periodic : List Nat) (τ τ' : Nat → Nat)
+    (h1 : ∀ i, τ (τ' i) = i) (h2 : ∀ i, τ' (τ i) = i)
+    (hτ : ∀ i, i < shape.length → τ i < shape.length) (hτ' : ∀ i, i < shape.length → τ' i < shape.length)
+    (val : Nat → Int) (order : List Nat) (cs : List Crit)
+    (horder : ∀ p ∈ order, p < Grid.size shape)
+    (hseeds : ∀ c ∈ cs, ∀ s ∈ P10.seedsOf c, s < Grid.size shape)
+    (val' : Nat → Int)
+    (hval : ∀ p ∈ order, val' (P19.liftC shape (P19.permC τ shape) (P19.permC τ) p) = val p) :
+    P10.SimL (P19.liftC shape (P19.permC τ shape) (P19.permC τ))
+      (run (envOf val (Grid.nbrs shape periodic) cs) order)
+      (run (envOf val' (Grid.nbrs (P19.permC τ shape) (periodic.map τ'))
+          (cs.map (P10.critRename (P19.liftC shape (P19.permC τ shape) (P19.permC τ)))))
+        (order.map (P19.liftC shape (P19.permC τ shape) (P19.permC τ)))) :=
+  P19.perm_invariance shape periodic τ τ' h1 h2 hτ hτ' val order cs horder hseeds val' hval
+
+/-- **C16 (flips).** -/
+theorem C16_flip (shape periodic : List Nat) (a : Nat)
+    (val : Nat → Int) (order : List Nat) (cs : List Crit)
+    (horder : ∀ p ∈ order, p < Grid.size shape)
+    (hseeds : ∀ c ∈ cs, ∀ s ∈ P10.seedsOf c, s < Grid.size shape)
+    (val' : Nat → Int)
+    (hval : ∀ p ∈ order, val' (P19.liftC shape shape (P19.flipC shape a) p) = val p) :
+    P10.SimL (P19.liftC shape shape (P19.flipC shape a))
+      (run (envOf val (Grid.nbrs shape periodic) cs) order)
+      (run (envOf val' (Grid.nbrs shape periodic)
+        (cs.map (P10.critRename (P19.liftC shape shape (P19.flipC shape a)))))
+        (order.map (P19.liftC shape shape (P19.flipC shape a)))) :=
+  P19.flip_invariance shape periodic a val order cs horder hseeds val' hval
+
+/-- **C16 (inserting a length-one axis).** -/
+theorem C16_unit_axis (shape periodic : List Nat) (j : Nat) (hj : j ≤ shape.length)
+    (val : Nat → Int) (order : List Nat) (cs : List Crit)
+    (horder : ∀ p ∈ order, p < Grid.size shape)
+    (hseeds : ∀ c ∈ cs, ∀ s ∈ P10.seedsOf c, s < Grid.size shape)
+    (val' : Nat → Int)
+    (hval : ∀ p ∈ order, val' (P19.liftC shape (P19.insShape j shape) (P19.insC j) p) = val p) :
+    P10.SimL (P19.liftC shape (P19.insShape j shape) (P19.insC j))
+      (run (envOf val (Grid.nbrs shape periodic) cs) order)
+      (run (envOf val' (Grid.nbrs (P19.insShape j shape) (periodic.map (fun x => if x ≥ j then x + 1 else x)))
+          (cs.map (P10.critRename (P19.liftC shape (P19.insShape j shape) (P19.insC j)))))
+        (order.map (P19.liftC shape (P19.insShape j shape) (P19.insC j)))) :=
+  P19.unit_axis_invariance shape periodic j hj val order cs horder hseeds val' hval
+
+/-- **C16 (padding with borders that are not processed — below threshold or NaN).** -/
+theorem C16_pad (shape lo hi : List Nat) (hlo : lo.length = shape.length) (hhi : hi.length = shape.length)
+    (val : Nat → Int) (order : List Nat) (cs : List Crit)
+    (horder : ∀ p ∈ order, p < Grid.size shape)
+    (hseeds : ∀ c ∈ cs, ∀ s ∈ P10.seedsOf c, s < Grid.size shape)
+    (val' : Nat → Int)
+    (hval : ∀ p ∈ order, val' (P19.liftC shape (P19.padShape shape lo hi) (P19.padC lo) p) = val p) :
+    P10.SimL (P19.liftC shape (P19.padShape shape lo hi) (P19.padC lo))
+      (run (envOf val (Grid.nbrs shape []) cs) order)
+      (run (envOf val' (Grid.nbrs (P19.padShape shape lo hi) [])
+          (cs.map (P10.critRename (P19.liftC shape (P19.padShape shape lo hi) (P19.padC lo)))))
+        (order.map (P19.liftC shape (P19.padShape shape lo hi) (P19.padC lo)))) :=
+  P19.pad_invariance shape lo hi hlo hhi val order cs horder hseeds val' hval
+
+/-- **C16 (raising the threshold only restricts the structures).** With pairwise distinct values and
+no pruning, the dendrogram computed on the pixels above a higher level `thr` is the original one
+with every structure's own pixels restricted to those pixels and emptied structures dropped
+(identical identifiers, own lists and children, up to the order of the root list). -/
+theorem C16_threshold_restriction (E : Env) (order : List Nat) (thr : Int)
+    (hstrict : order.Pairwise (fun a b => E.val b < E.val a)) (hno : ∀ t p v, E.indep t p v = true) :
+    (P26.restrictL (fun x => decide (thr < E.val x)) (run E order)).Perm
+      (run E (order.filter (fun x => decide (thr < E.val x)))) :=
+  P26.threshold_restriction_level E order thr hstrict hno
+
 -- non-vacuity: values `3 1 3 1 2` flipped and mapped by `v ↦ 2v + 7` (identifiers and child order
 -- differ between the two runs; see the witness at the end of ADProofs/SimProofs.lean)
 example : (0 : Int) < 2 ∧ [0, 2, 4, 1, 3].map (fun p => 4 - p) = [4, 2, 0, 3, 1] := by decide
